@@ -152,3 +152,52 @@ def install_bitwise() -> None:
     _SI.__or__ = _or  # type: ignore[assignment]
     _SI.__ror__ = _ror  # type: ignore[assignment]
     core._PATCH_REGISTRATIONS[str.encode] = model_str_encode
+
+
+# ------------------------------------------------------------------ M5: json.dumps(str, ensure_ascii=False)
+def install_json_dumps() -> None:
+    """``canonical_string`` calls json.dumps(name, ensure_ascii=False): per-character escaping kept symbolic (models.json_escape)."""
+    import json
+
+    real_dumps = json.dumps
+
+    def model_dumps(obj, *a, **kw):
+        with NoTracing():
+            sym = isinstance(obj, builtinslib.AnySymbolicStr)
+        if sym and not a and kw == {"ensure_ascii": False}:
+            return models.json_escape(obj)
+        with NoTracing():
+            obj = deep_realize(obj)
+        return real_dumps(obj, *a, **kw)
+
+    core._PATCH_REGISTRATIONS[json.dumps] = model_dumps
+
+
+def install_fstring_str() -> None:
+    """f"{obj}" where obj.__str__ returns a *symbolic* string (e.g. f"?{self.expression}"): CrossHair formats through
+    format(obj, ""), whose C implementation insists on a concrete str and so realizes it.  Route the empty format spec
+    through CrossHair's own symbolic-aware str()."""
+    from crosshair import opcode_intercept as oi
+
+    orig = oi.FormatStashingValue.__format__
+
+    def __format__(self, fmt):
+        if fmt == "":
+            self.formatted = builtinslib._str(self.value)
+            return ""
+        return orig(self, fmt)
+
+    oi.FormatStashingValue.__format__ = __format__  # type: ignore[assignment]
+
+
+def install_concrete_float() -> None:
+    """M8 (round-trip obligations): float(<symbolic numeral>) realizes the numeral and converts it with the real float(),
+    because str -> double -> str rounding is exactly what those obligations are about (digits are then fork-enumerated)."""
+
+    def model_float(val: Any = 0.0):
+        with NoTracing():
+            if isinstance(val, CrossHairValue):
+                val = deep_realize(val)
+        return float(val)
+
+    core._PATCH_REGISTRATIONS[float] = model_float
